@@ -561,6 +561,10 @@ impl RealSpec {
                 return *i;
             }
         }
+        // (sub-DAGs without identity hash are expanded like trees: give up beyond 5000 items)
+        if self.out.len() > 5000 {
+            return 0;
+        }
         let (l, r) = real_children(n);
         let li = l.map(|c| self.visit(c));
         let ri = r.map(|c| self.visit(c));
@@ -585,10 +589,15 @@ fn check_real(cx: &mut Case, nodes: &[Sh], labels: &[u8]) -> CaseResult {
         for (i, n) in nodes.iter().enumerate() {
             let node = match *n {
                 Sh::N => {
-                    if labels.get(i).copied().unwrap_or(0) % 2 == 0 {
-                        Arc::<ConstructNode>::unit(&ctx)
-                    } else {
-                        Arc::<ConstructNode>::iden(&ctx)
+                    // (a witness node has no identity hash: it and its ancestors are never
+                    //  shared under identity-hash sharing, not even when the pointer is)
+                    match labels.get(i).copied().unwrap_or(0) % 3 {
+                        0 => Arc::<ConstructNode>::unit(&ctx),
+                        1 => Arc::<ConstructNode>::iden(&ctx),
+                        _ => {
+                            use simplicity::node::WitnessConstructible;
+                            Arc::<ConstructNode>::witness(&ctx, None)
+                        }
                     }
                 }
                 Sh::U(c) => Arc::<ConstructNode>::injl(&built[c]),
@@ -622,12 +631,18 @@ fn check_real(cx: &mut Case, nodes: &[Sh], labels: &[u8]) -> CaseResult {
         }
         Ok(())
     };
+    // (a DAG whose witness-bearing part expands to more than 5000 items under identity-hash
+    //  sharing is only walked with pointer sharing)
+    let expanded_ok = by_ihr.out.len() <= 5000;
+    cx.label_if(!expanded_ok, "real nodes: expansion under identity-hash sharing too large (pointer sharing only)");
+    if expanded_ok {
     cmp("post_order_iter::<MaxSharing<Commit>> (&Node)", &by_ihr.out, root.post_order_iter::<MaxSharing<Commit>>().map(|d| (d.index, d.node as *const CNode as usize, d.left_index, d.right_index)).collect())?;
     cmp("post_order_iter::<MaxSharing<Commit>> (Arc<Node>)", &by_ihr.out, Arc::clone(&commit).post_order_iter::<MaxSharing<Commit>>().map(|d| (d.index, Arc::as_ptr(&d.node) as usize, d.left_index, d.right_index)).collect())?;
+    }
     cmp("post_order_iter::<InternalSharing> (&Node)", &by_ptr.out, root.post_order_iter::<InternalSharing>().map(|d| (d.index, d.node as *const CNode as usize, d.left_index, d.right_index)).collect())?;
     cmp("post_order_iter::<InternalSharing> (Arc<Node>)", &by_ptr.out, Arc::clone(&commit).post_order_iter::<InternalSharing>().map(|d| (d.index, Arc::as_ptr(&d.node) as usize, d.left_index, d.right_index)).collect())?;
     // pre-order under identity-hash sharing: the same set of classes, each once
-    {
+    if expanded_ok {
         let mut want: Vec<usize> = by_ihr.out.iter().map(|x| x.0).collect();
         let mut got: Vec<usize> = root.pre_order_iter::<MaxSharing<Commit>>().map(|n| n as *const CNode as usize).collect();
         // the representative of a class may differ between the two orders: compare identity hashes
@@ -642,7 +657,7 @@ fn check_real(cx: &mut Case, nodes: &[Sh], labels: &[u8]) -> CaseResult {
     }
     // the sharing check: accepted exactly when the pointer structure already is the requested sharing
     let already_max = by_ihr.out.iter().map(|x| x.0).collect::<Vec<_>>() == by_ptr.out.iter().map(|x| x.0).collect::<Vec<_>>();
-    if root.is_shared_as::<MaxSharing<Commit>>() != already_max {
+    if expanded_ok && root.is_shared_as::<MaxSharing<Commit>>() != already_max {
         return Err(format!("is_shared_as::<MaxSharing<Commit>> on real nodes returns {} for a DAG whose pointer structure {} identity-hash sharing (shape {:?}, labels {:?})", !already_max, if already_max { "equals" } else { "differs from" }, nodes, labels));
     }
     if !root.is_shared_as::<InternalSharing>() {
@@ -661,7 +676,7 @@ fn fixed(tier: Tier, emit: &mut dyn FnMut(&[u8])) {
     fn rec(nodes: &mut Vec<(u8, u8, u8)>, n: usize, emit: &mut dyn FnMut(&[u8])) {
         let i = nodes.len();
         if i == n {
-            for lab in [0u8, 1u8] {
+            for lab in [0u8, 1u8, 2u8] {
                 let mut s = vec![0u8, n as u8, lab];
                 for (k, l, r) in nodes.iter() {
                     s.extend_from_slice(&[*k, *l, *r]);
@@ -710,7 +725,7 @@ pub fn case(cx: &mut Case) -> CaseResult {
             } else {
                 Sh::B(l % i, r % i)
             });
-            labels.push(if lab_mode == 0 { 0 } else { (i % 2) as u8 });
+            labels.push(match lab_mode { 0 => 0, 1 => (i % 2) as u8, _ => (i % 3) as u8 });
         }
         cx.label("mode: exact shape");
     } else {
